@@ -345,12 +345,16 @@ func WrapArray3(iv px.List) *Array {
 }
 
 func (av *Array) Add(ov px.Value) px.List {
-	return WrapValues(append(av.elements, ov))
+	// The capacity is capped at the length so that append always copies. A spare capacity is shared with
+	// other arrays (results of earlier Add or Slice calls) and must never be written to.
+	n := len(av.elements)
+	return WrapValues(append(av.elements[:n:n], ov))
 }
 
 func (av *Array) AddAll(ov px.List) px.List {
 	if ar, ok := ov.(*Array); ok {
-		return WrapValues(append(av.elements, ar.elements...))
+		n := len(av.elements)
+		return WrapValues(append(av.elements[:n:n], ar.elements...))
 	}
 
 	aLen := len(av.elements)
